@@ -1181,6 +1181,10 @@ func runC20(ctx *Ctx) *Result {
 	if res.Broken != "" {
 		return res
 	}
+	c20CrossCheckExtraction(ctx, res, tally)
+	if res.Broken != "" {
+		return res
+	}
 	c20LoadMkTwice(ctx, res, tally)
 	c20EndOfRunLoads(ctx, res, tally)
 	c20WholeRuns(ctx, res, tally)
@@ -1233,6 +1237,8 @@ func replayC20(ctx *Ctx, rep map[string]any) *Result {
 		c20EndOfRunLoads(ctx, res, tally)
 	case "audit":
 		c20Audit(ctx, res, tally)
+	case "crosscheck":
+		c20CrossCheckExtraction(ctx, res, tally)
 	default:
 		res.Broken = "nothing to replay: the replay file names a proof obligation or correspondence, not an input"
 	}
